@@ -166,14 +166,31 @@ func (e *enc) kindTag(name string) int {
 
 // kindImplements: without shape tables an interface assertion on a non-nil node is left undetermined
 func (e *enc) kindImplements(v Term, t types.Type) Term {
-	f := e.uf("implements_"+clean(nodeTypeName(t)), []string{"Int"}, "Bool")
+	name := nodeTypeName(t)
+	switch name {
+	case "Tree", "SyntaxTree", "ParseTree":
+		// every node of a parse tree (rule contexts, terminal nodes) implements these runtime interfaces
+		e.assumps["antlr runtime: rule contexts and terminal nodes implement Tree, SyntaxTree and ParseTree"] = true
+		return fmt.Sprintf("(not (= %s 0))", v)
+	case "RuleNode", "RuleContext", "ParserRuleContext":
+		return fmt.Sprintf("(and (not (= %s 0)) (not (= (kind %s) %d)))", v, v, e.kindTag(terminalKind))
+	case "TerminalNode":
+		return fmt.Sprintf("(and (not (= %s 0)) (= (kind %s) %d))", v, v, e.kindTag(terminalKind))
+	}
+	if n, ok := t.(*types.Named); ok && n.Obj().Pkg() != nil && strings.HasPrefix(name, "I") && strings.HasSuffix(name, "Context") {
+		if db := e.w.shapeSet().forPkg(n.Obj().Pkg().Path()); db != nil {
+			rule := strings.TrimSuffix(name[1:], "Context")
+			rule = strings.ToLower(rule[:1]) + rule[1:]
+			if ks, ok := db.kinds[rule]; ok {
+				return fmt.Sprintf("(and (not (= %s 0)) %s)", v, e.kindIn(v, ks))
+			}
+		}
+	}
+	f := e.uf("implements_"+clean(name), []string{"Int"}, "Bool")
 	return fmt.Sprintf("(and (not (= %s 0)) (%s (kind %s)))", v, f, v)
 }
 
 // shapeCall: hook for grammar-shape contracts (shape.go); false = no contract known
 func (e *enc) shapeCall(x *ssa.Call, recvType, method string, args []Term) bool {
-	if e.shapes == nil {
-		return false
-	}
-	return e.shapes.call(e, x, recvType, method, args)
+	return e.w.shapeSet().call(e, x, recvType, method, args)
 }
